@@ -184,8 +184,17 @@ pub trait ElementReference<'a, Traits: ?Sized + Trait = dyn None, M: MemBuilder 
 ///
 /// [`AnyVec::get`]: crate::AnyVec::get
 pub struct ElementRef<'a, Traits: ?Sized + Trait = dyn None, M: MemBuilder = mem::Default>(
-    pub(crate) ManuallyDrop<Element<'a, Traits, M>>
+    pub(crate) ManuallyDrop<Element<'a, Traits, M>>,
+    // Shared (`&AnyVec`-like, Clone-able) handle: Send + Sync implemented manually below.
+    pub(crate) PhantomData<*const ()>
 );
+// `ElementRef` is a shared reference to the vector - it can cross threads only if `&AnyVec` can.
+unsafe impl<'a, Traits: ?Sized + Trait, M: MemBuilder> Send for ElementRef<'a, Traits, M>
+    where AnyVec<Traits, M>: Sync
+{}
+unsafe impl<'a, Traits: ?Sized + Trait, M: MemBuilder> Sync for ElementRef<'a, Traits, M>
+    where AnyVec<Traits, M>: Sync
+{}
 impl<'a, Traits: ?Sized + Trait, M: MemBuilder> ElementReference<'a, Traits, M> for ElementRef<'a, Traits, M>{}
 impl<'a, Traits: ?Sized + Trait, M: MemBuilder> Deref for ElementRef<'a, Traits, M>{
     type Target = Element<'a, Traits, M>;
@@ -198,7 +207,7 @@ impl<'a, Traits: ?Sized + Trait, M: MemBuilder> Deref for ElementRef<'a, Traits,
 impl<'a, Traits: ?Sized + Trait, M: MemBuilder> Clone for ElementRef<'a, Traits, M>{
     #[inline]
     fn clone(&self) -> Self {
-        Self(ManuallyDrop::new(self.0.clone()))
+        Self(ManuallyDrop::new(self.0.clone()), PhantomData)
     }
 }
 
